@@ -1,7 +1,7 @@
 (** Top-level statements for validated tables (no error recovery): the parser accepts exactly the
     sentences of the grammar and returns their derivation tree. *)
 From Coq Require Import List ZArith Bool Arith Lia.
-From LV Require Import LR.Driver LR.Validator LR.Safety LR.ValidatorSpec LR.Soundness LR.Completeness LR.ErrorPos.
+From LV Require Import LR.Driver LR.Validator LR.Safety LR.ValidatorSpec LR.Soundness LR.Completeness LR.ErrorPos LR.Locality LR.Viable LR.ViableRun.
 Import ListNotations.
 
 Section Main.
@@ -75,6 +75,101 @@ Proof.
   destruct (parse_ok_complete t2 H2) as [n2 Hn2].
   destruct (Hn1 (n1 + n2)) as [s1 Hs1]; [lia|]. destruct (Hn2 (n1 + n2)) as [s2 Hs2]; [lia|].
   rewrite Hy in Hs1. rewrite Hs1 in Hs2. congruence.
+Qed.
+
+(** C04, the non-viability half: the token carried by [UnrecognizedToken] cannot continue the input
+    consumed before it -- no sentence starts with that prefix followed by that token.  (Completeness
+    says a sentence is accepted; locality says the error does not depend on what follows.) *)
+Theorem error_token_cannot_continue fuel w k exp s :
+  drive A no_fail fuel (map IOk w) = (RErr (PUnrecTok k exp), s) ->
+  exists u v, w = u ++ k :: v /\ npulled s = S (length u) /\ forall v', ~ sentence (u ++ k :: v').
+Proof.
+  intros H.
+  destruct (unrecognized_token_position A no_fail fuel w k exp s Hnorec H) as [(u & v & Hw & Hp) _].
+  exists u, v. repeat split; auto. intros v' (t & Hwf & Hy).
+  destruct (parse_ok_complete t Hwf) as [n Hn].
+  set (F := Nat.max fuel n).
+  assert (H1 : drive A no_fail F (map IOk w) = (RErr (PUnrecTok k exp), s))
+    by (apply (drive_mono A Hnorec no_fail fuel _ _ _ H); [discriminate|apply Nat.le_max_l]).
+  rewrite Hw in H1.
+  destruct (unrecognized_token_is_local A no_fail F u k v v' exp s Hnorec H1 Hp) as [s2 H2].
+  destruct (Hn F (Nat.le_max_r _ _)) as [s3 H3]. rewrite Hy in H3. rewrite H3 in H2. discriminate.
+Qed.
+
+(** C04, the viability half: with a productive grammar (every nonterminal derives some terminal
+    string -- certificate ranks), what was consumed before the reported token is a prefix of a sentence *)
+Lemma initial_J w : productive A C = true -> Forall tok_in_range w ->
+  J A C w MNeed (init (map IOk w)).
+Proof.
+  intros Hprod Hw. destruct valid_proj as (Hs & Hc & He & _).
+  assert (Hst : exists it, In it (items_of C 0)).
+  { unfold complete in Hc. rewrite !andb_true_iff in Hc. destruct Hc as ((Hc & _) & _).
+    destruct (has_las_item C 0 (start_prod A) 0 [None] None Hc (or_introl eq_refl)) as (it & Hin & _). eauto. }
+  split; [|split; [|split]].
+  - repeat split; simpl; auto.
+    + rewrite toks_map_ok. reflexivity.
+    + apply Forall_forall. intros i Hi. apply in_map_iff in Hi as (k0 & <- & Hk). rewrite Forall_forall in Hw. apply (Hw k0 Hk).
+  - apply (viable_stack A C Hs He Hprod Hnorec []); [split; [exact I|constructor]|exact Hst].
+  - reflexivity.
+  - exists w. reflexivity.
+Qed.
+
+Theorem consumed_prefix_is_viable orc fuel w k exp s :
+  productive A C = true ->
+  Forall tok_in_range w ->
+  drive A orc fuel (map IOk w) = (RErr (PUnrecTok k exp), s) ->
+  exists u v, w = u ++ k :: v /\ npulled s = S (length u) /\ (exists v', sentence (u ++ v')) /\
+              forall x kx, In x exp -> tk_idx kx = Some x -> exists v', sentence (u ++ [kx] ++ v').
+Proof.
+  intros Hprod Hw H. destruct valid_proj as (Hs & Hc & He & Hse & _).
+  unfold drive in H.
+  apply (run_J A C Hs He Hprod Hnorec Hse orc fuel w _ _ _ _ _ (initial_J w Hprod Hw)) in H.
+  destruct H as (u & v & Hwv & Hv & Hn & Hex). exists u, v. repeat split; auto.
+  intros x kx Hx Hk. destruct (Hex x kx Hx Hk) as [v' Hv']. exists v'. rewrite app_assoc. exact Hv'.
+Qed.
+
+(** C05: every terminal named in an expected list can continue the consumed input *)
+Theorem expected_at_eof_are_viable orc fuel w loc exp s :
+  productive A C = true ->
+  Forall tok_in_range w ->
+  drive A orc fuel (map IOk w) = (RErr (PUnrecEof loc exp), s) ->
+  forall x kx, In x exp -> tk_idx kx = Some x -> exists v', sentence (w ++ [kx] ++ v').
+Proof.
+  intros Hprod Hw H. destruct valid_proj as (Hs & Hc & He & Hse & _).
+  unfold drive in H.
+  apply (run_J A C Hs He Hprod Hnorec Hse orc fuel w _ _ _ _ _ (initial_J w Hprod Hw)) in H.
+  intros x kx Hx Hk. destruct (H x kx Hx Hk) as [v' Hv']. exists v'. rewrite app_assoc. exact Hv'.
+Qed.
+
+Lemma same_split {X} (u1 u2 v1 v2 : list X) k : u1 ++ k :: v1 = u2 ++ k :: v2 -> length u1 = length u2 -> u1 = u2.
+Proof.
+  revert u2. induction u1 as [|a u1 IH]; intros [|b u2] H Hl; simpl in *; try lia; [reflexivity|].
+  inversion H. f_equal. apply IH; [assumption|lia].
+Qed.
+
+(** C04: the reported token is the FIRST one that cannot continue the input *)
+Theorem error_at_first_non_viable_token fuel w k exp s :
+  productive A C = true ->
+  Forall tok_in_range w ->
+  drive A no_fail fuel (map IOk w) = (RErr (PUnrecTok k exp), s) ->
+  exists u v, w = u ++ k :: v /\ npulled s = S (length u) /\
+              (exists v', sentence (u ++ v')) /\ (forall v', ~ sentence (u ++ k :: v')).
+Proof.
+  intros Hprod Hw H.
+  destruct (consumed_prefix_is_viable no_fail fuel w k exp s Hprod Hw H) as (u & v & Hwv & Hn & Hv & _).
+  destruct (error_token_cannot_continue fuel w k exp s H) as (u2 & v2 & Hwv2 & Hn2 & Hnv).
+  assert (u = u2) by (apply (same_split u u2 v v2 k); [congruence|lia]). subst u2.
+  exists u, v. repeat split; auto.
+Qed.
+
+Theorem eof_error_not_a_sentence fuel w loc exp s :
+  drive A no_fail fuel (map IOk w) = (RErr (PUnrecEof loc exp), s) -> ~ sentence w.
+Proof.
+  intros H (t & Hwf & Hy). destruct (parse_ok_complete t Hwf) as [n Hn].
+  set (F := Nat.max fuel n).
+  assert (H1 : drive A no_fail F (map IOk w) = (RErr (PUnrecEof loc exp), s))
+    by (apply (drive_mono A Hnorec no_fail fuel _ _ _ H); [discriminate|apply Nat.le_max_l]).
+  destruct (Hn F (Nat.le_max_r _ _)) as [s3 H3]. rewrite Hy in H3. rewrite H3 in H1. discriminate.
 Qed.
 End Main.
 
